@@ -61,6 +61,11 @@ pub enum HOp {
     EnableIncremental { kg: String },
     /// multi-tuple delete straight through StorageEngine::delete_tuples_from (present and absent tuples mixed)
     EngineDelete { kg: String, rel: String, tuples: Vec<T> },
+    /// multi-tuple insert straight through StorageEngine::insert_tuples_into (in-batch duplicates, stored duplicates, large batches)
+    EngineInsert { kg: String, rel: String, tuples: Vec<T> },
+    /// one stateless request made of several statements (executed in program order); each statement
+    /// carries its meaning for the model; at most one of them is an insert
+    Multi { kg: String, stmts: Vec<(String, Effect)> },
     /// engine-level maintenance (shared with DUR)
     SaveAll,
     CompactAll,
@@ -247,7 +252,8 @@ fn batch_conforms(cols: &[(String, String)], tuples: &[T]) -> Option<bool> {
 
 impl<'a> X<'a> {
     fn logln(&mut self, s: &str) {
-        self.log.extend_from_slice(s.as_bytes());
+        // the run directory carries the pid: error texts that quote a path must not change the log hash
+        self.log.extend_from_slice(crate::dur::canon_paths(s).as_bytes());
         self.log.push(b'\n');
     }
     fn h(&self) -> &Handler {
@@ -724,6 +730,62 @@ impl<'a> X<'a> {
                 match r {
                     Ok(c) if c == n => {}
                     other => return Err(fail("report_mismatch", i, format!("delete_tuples_from({rel}, {tuples:?}) returned {other:?}, model removed {n}"))),
+                }
+                self.check_persistent(i)?;
+            }
+            HOp::EngineInsert { kg, rel, tuples } => {
+                let r = {
+                    let g = self.h().get_storage();
+                    g.insert_tuples_into(kg, rel, tuples.iter().map(to_tuple).collect())
+                };
+                let (mut n, mut d) = (0, 0);
+                if let Some(k) = self.model.kgs.get_mut(kg) {
+                    let set = k.rels.entry(rel.clone()).or_default();
+                    for t in tuples {
+                        if set.insert(t.clone()) {
+                            n += 1;
+                        } else {
+                            d += 1;
+                        }
+                    }
+                }
+                self.logln(&format!("step {i} engine_insert -> {r:?}"));
+                match r {
+                    Ok((a, b)) if a == n && b == d => {}
+                    other => return Err(fail("report_mismatch", i, format!("insert_tuples_into({rel}, {} tuples) returned {other:?}, model says ({n} new, {d} duplicates)", tuples.len()))),
+                }
+                self.check_persistent(i)?;
+            }
+            HOp::Multi { kg, stmts } => {
+                let text = stmts.iter().map(|(t, _)| t.as_str()).collect::<Vec<_>>().join("\n");
+                let r = self.run_program(None, Some(kg.clone()), text.clone());
+                let (msgs, errored) = match &r {
+                    Ok(q) => (strings_of(q), false),
+                    Err(e) => (vec![e.clone()], true),
+                };
+                self.logln(&format!("step {i} multi {text:?} -> {msgs:?}"));
+                if errored {
+                    self.out.op_errors += 1;
+                }
+                // a request-local schema declared earlier in the same request is enforced on top of the
+                // persistent one: a batch that does not certainly conform to it may be refused
+                let mut req_local: BTreeMap<String, Vec<(String, String)>> = BTreeMap::new();
+                for (_, effect) in stmts {
+                    match effect {
+                        Effect::SessionSchema { rel, cols } => {
+                            req_local.insert(rel.clone(), cols.clone());
+                        }
+                        Effect::Insert { rel, tuples } => {
+                            let refused = errored || msgs.iter().any(|m| m.contains("rejected"));
+                            let may_refuse = req_local.get(rel).is_some_and(|cols| batch_conforms(cols, tuples) != Some(true));
+                            if refused && may_refuse {
+                                self.out.rejected_inserts += 1;
+                                continue;
+                            }
+                        }
+                        _ => {}
+                    }
+                    self.apply_effect(kg, effect, &msgs, i, errored)?;
                 }
                 self.check_persistent(i)?;
             }
